@@ -117,7 +117,7 @@ func c03BuildFrame(c c03Frame) (frame []byte, tooBig bool, err error) {
 	}
 	if c.V6 {
 		ip6 := packet.EncodeIP6(ether.Payload(), c.TTL, src, dst)
-		if err := mk(ip6.Payload()[:0:cap(ip6)-40]); err != nil {
+		if err := mk(ip6.Payload()[: 0 : cap(ip6)-40]); err != nil {
 			return nil, errors.Is(err, packet.ErrPayloadTooBig), err
 		}
 		if c.First > 0 && cap(ip6)-40 >= c.First {
